@@ -11,20 +11,22 @@ Ev == Log[l]
 IsEv(e) == l <= Len(Log) /\ Log[l].e = e /\ l' = l + 1
 Skip(e) == IsEv(e) /\ UNCHANGED dvars /\ UNCHANGED pend
 
-TInit == DInit /\ l = 1 /\ pend = [t |-> 0, cb |-> FALSE]
+TInit == DInit /\ l = 1 /\ pend = [t |-> 0, cb |-> FALSE, prio |-> 0]
 TReset ==
-  /\ IsEv("Reset") /\ pend' = [t |-> 0, cb |-> FALSE]
+  /\ IsEv("Reset") /\ pend' = [t |-> 0, cb |-> FALSE, prio |-> 0]
   /\ minT' = 0 /\ maxT' = 0 /\ ready' = FALSE /\ undo' = [k \in Levels |-> <<>>] /\ doing' = {} /\ idle' = {} /\ threads' = {}
   /\ stopFlag' = FALSE /\ exiting' = {} /\ collected' = {} /\ left' = {}
   /\ accepted' = {} /\ hasCb' = {} /\ taken' = [t \in Tasks |-> None] /\ began' = [t \in Tasks |-> 0] /\ ended' = {} /\ erased' = {}
   /\ cancelledOk' = {} /\ dropped' = {} /\ cbRan' = [t \in Tasks |-> 0] /\ pendSpawn' = {} /\ insec' = {} /\ lastQ' = [k |-> "none"]
-TSubmit == IsEv("submit") /\ pend' = [t |-> Ev.t, cb |-> Ev.cb] /\ UNCHANGED dvars
+\* the level a task is queued at is a function of the priority the caller asked for (clamped to -2..2): level = prio + 2
+LevelOf(prio) == IF prio + 2 < 0 THEN 0 ELSE IF prio > 2 THEN 4 ELSE prio + 2
+TSubmit == IsEv("submit") /\ pend' = [t |-> Ev.t, cb |-> Ev.cb, prio |-> Ev.prio] /\ UNCHANGED dvars
 TNext ==
   \/ TReset \/ TSubmit
   \/ Skip("init_ret") \/ Skip("cleanup_ret")
   \/ IsEv("spawn") /\ DSpawn(Ev.w) /\ Ev.n = Cardinality(threads') /\ UNCHANGED pend
   \/ IsEv("init") /\ DInitialize(Ev.min, Ev.max) /\ UNCHANGED pend
-  \/ IsEv("exec") /\ pend.t = Ev.t /\ DExec(Ev.t, Ev.lvl, pend.cb) /\ UNCHANGED pend
+  \/ IsEv("exec") /\ pend.t = Ev.t /\ Ev.lvl = LevelOf(pend.prio) /\ DExec(Ev.t, Ev.lvl, pend.cb) /\ UNCHANGED pend
   \/ IsEv("status") /\ DStatus(Ev.t, Ev.ans) /\ UNCHANGED pend
   \/ IsEv("cancel") /\ DCancel(Ev.t, Ev.ans) /\ UNCHANGED pend
   \/ IsEv("collect") /\ Ev.n = Cardinality(threads) /\ DCollect(Ev.flag) /\ UNCHANGED pend
